@@ -396,6 +396,7 @@ static void encode(const json& v)
     }
 }
 
+static bool g_bytag = false; // second pass of cursor vectors: through get/set_by_tag
 static int wrapper_id(const std::string& w)
 {
     return w == "plain" ? 0 : w == "init" ? 1 : w == "dont_move" ? 2
@@ -425,6 +426,10 @@ static void cursor_call(const json& v)
     const auto ipv = ip0(v["ip"]);
     const int* ip = ipv.data();
     const auto& mo = R.members.at(key);
+    const auto tg = R.tagged.find(key);
+    const bool by_tag = g_bytag && tg != R.tagged.end() && (set ? (bool)tg->second.tcset : (bool)tg->second.tcget);
+    if(g_bytag && !by_tag)
+        return;
     region reg(pre.size(), true);
     reg.load(pre);
     char* p = reg.data() + v0;
@@ -433,11 +438,18 @@ static void cursor_call(const json& v)
     cursor_ret ret;
     const bytes val = to_bytes(v["val"]);
     const int wid = wrapper_id(w);
-    rep.note_distinct(key + w + std::to_string(cur_in) + (set ? "s" : "g") + hex(pre));
+    rep.note_distinct(key + w + std::to_string(cur_in) + (set ? "s" : "g") + (g_bytag ? "T" : "") + hex(pre));
     std::string err = attempt(
         [&]
         {
-            if(set)
+            if(g_bytag)
+            {
+                if(set)
+                    tg->second.tcset(p, size, ip, wid, cur, val);
+                else
+                    ret = tg->second.tcget(p, size, ip, wid, cur);
+            }
+            else if(set)
                 mo.cset(p, size, ip, wid, cur, val);
             else
                 ret = mo.cget(p, size, ip, wid, cur);
@@ -445,7 +457,7 @@ static void cursor_call(const json& v)
     json cs = {{"msg", msg}, {"key", key}, {"w", w}, {"set", set},
                {"cur", cur_in}, {"ip", v["ip"]}, {"schema", g_schema},
                {"ext", ext}, {"legal", legal}, {"mkind", v["mkind"]}};
-    const std::string sig = std::string("cursor/") + w + "/"
+    const std::string sig = std::string(g_bytag ? "cursor-by-tag/" : "cursor/") + w + "/"
                             + v["mkind"].get<std::string>() + "/"
                             + (set ? "set" : "get") + "/";
     const std::string tail = "/" + g_schema + ":" + key;
@@ -821,7 +833,13 @@ int main(int argc, char** argv)
                 else if(k == "encode")
                     encode(v);
                 else if(k == "cursor")
+                {
+                    g_bytag = false;
                     cursor_call(v);
+                    g_bytag = true; // same call through get_by_tag / set_by_tag
+                    cursor_call(v);
+                    g_bytag = false;
+                }
                 else if(k == "visit")
                     visit_call(v);
             });
